@@ -4,34 +4,50 @@
    attribute it carries (1 = none); handle Detached | LiveRow i | LiveCell i j; content}; the handle follows the code:
    fetched from the tree = Live, `.clone` / `Cell()` / `Row()` / `Column()` = Detached).  Specification: TableGspec.v
    (spec_get on the grid: which positions, in which nesting, with which content; promises_copy / expands = what the
-   documentation says).  The code modelled is the repaired one (F13 F30 F32 F110); m_get true = the pinned getters. *)
+   documentation says).  m_get false false = the code as it is (F13 F32 F110 repaired; F30 is a known finding: get_cells(area)
+   returns, for a row stored narrower than the area, only the cells it stores); m_get true false = the getters before those
+   repairs; m_get false true = the candidate repair of F30 (not applied).  spec_get true = the documented reading of
+   get_cells(area) ("the exact number of cells of the area"), spec_get false = the as-stored reading the code implements;
+   the two differ for GGetCells (Some area) only. *)
 From Coq Require Import List ZArith Lia Bool Arith.
 Import ListNotations.
-Require Import Vault Row Table Grid Tableabs Tablexmlproof TableB TableBabs TableBproof TableG TableGspec TableGproof TableGproof2 TableGproof3 TableGsweep.
+Require Import Vault Row Table Grid Tableabs Tablexmlproof TableB TableBabs TableBproof TableG TableGspec TableGproof TableGproof2 TableGproof3 TableGproof4 TableGproof5 TableGproof6 TableGproof7 TableGsweep.
 Open Scope Z_scope.
 
 (* ---- the full statement: on every well-formed table whose rows fit its columns, every getter with any coordinates
         returns exactly the objects the specification lists (number, nesting, coordinates, content), without a repeat when
         it expands, Detached when a copy is documented ---- *)
 Definition C08_full : Prop := forall (t : tstate) (q : getter), WF t -> fits t = true -> C08_holds t q.
+(* C08_full is FALSE of the code as it is: C08_get_cells_pinned_refuted below (F30).  What holds of the code as it is: *)
+Definition C08_full_as_stored : Prop := forall (t : tstate) (q : getter), WF t -> fits t = true -> C08_holds_as_stored t q.
 
-(* proved parts of it, for ALL tables: (1) copies are Detached and so no mutation of them reaches the table;
-   (2) expanding reads return no repeat; (3) the single-object getters get_cell / get_row / get_column meet the whole
-   specification, out-of-area included.  The coordinates and contents of the multi-object getters (get_cells, cells, get_rows,
-   rows, traverse, get_columns, columns, traverse_columns, get_column_cells, Row.traverse, Row.cells) are proved in the
-   small scope below and exercised by the correspondence; that part of C08_full is not proved in general. *)
-Theorem C08_copies_are_detached_partial : forall (t : tstate) (q : getter), promises_copy q = true ->
-  Forall (fun h => h = Detached) (res_handles (m_get false t q)).
+
+(* ---- FULL, for every well-formed table whose rows fit its columns and every getter of the alphabet with any coordinates:
+        the code as it is returns exactly the objects the as-stored specification lists — number, nesting, coordinates stamped =
+        addressed logical position, content of that position, no repeat when the read expands, Detached where a copy is documented ---- *)
+Theorem C08_all_getters_as_stored : C08_full_as_stored.
+Proof. exact all_getters_as_stored. Qed.
+Print Assumptions C08_all_getters_as_stored.
+
+(* ---- and the DOCUMENTED reading (C08_full) for every getter except get_cells(area), whose docstring is refuted below (F30) ---- *)
+Theorem C08_all_getters_documented_except_get_cells_area : forall (t : tstate) (q : getter), WF t -> fits t = true ->
+  is_area_get_cells q = false -> C08_holds t q.
+Proof. exact all_getters_documented. Qed.
+Print Assumptions C08_all_getters_documented_except_get_cells_area.
+
+(* components (kept; the first two hold without the fits hypothesis and also for the candidate repair of F30): *)
+Theorem C08_copies_are_detached_partial : forall (pad : bool) (t : tstate) (q : getter), promises_copy q = true ->
+  Forall (fun h => h = Detached) (res_handles (m_get false pad t q)).
 Proof. exact copies_detached. Qed.
 Print Assumptions C08_copies_are_detached_partial.
 
-Theorem C08_mutating_a_copy_never_reaches_the_table : forall (t : tstate) (q : getter) (f : mutation), promises_copy q = true ->
-  Forall (fun h => mutate h f t = t) (res_handles (m_get false t q)).
+Theorem C08_mutating_a_copy_never_reaches_the_table : forall (pad : bool) (t : tstate) (q : getter) (f : mutation), promises_copy q = true ->
+  Forall (fun h => mutate h f t = t) (res_handles (m_get false pad t q)).
 Proof. exact detached_mutation_invisible. Qed.
 Print Assumptions C08_mutating_a_copy_never_reaches_the_table.
 
-Theorem C08_expanded_reads_carry_no_repeat_partial : forall (t : tstate) (q : getter), WF t -> expands q = true ->
-  Forall (fun n => n = 1%nat) (res_reps (m_get false t q)).
+Theorem C08_expanded_reads_carry_no_repeat_partial : forall (pad : bool) (t : tstate) (q : getter), WF t -> expands q = true ->
+  Forall (fun n => n = 1%nat) (res_reps (m_get false pad t q)).
 Proof. exact expanded_no_repeat. Qed.
 Print Assumptions C08_expanded_reads_carry_no_repeat_partial.
 
@@ -56,30 +72,42 @@ Print Assumptions C08_reads_do_not_change_the_table.
 
 (* ---- small scope, exhaustive: ALL 13 getter kinds (2382 calls: every coordinate in -1 .. 4, optional bounds, crossed
         and out-of-area ranges, clone / keep_repeated flags) on ALL 396 tables with <= 2 row runs (repeat <= 2) of <= 2 cell
-        runs (repeat <= 2) under 4 column layouts whose rows fit: the full specification holds ---- *)
-Theorem C08_small_scope : forall (t : tstate) (q : getter), In t small_tables -> In q small_getters -> C08_holds t q.
+        runs (repeat <= 2) under 4 column layouts whose rows fit ---- *)
+(* the code as it is meets the whole specification in the as-stored reading, get_cells(area) included *)
+Theorem C08_small_scope_as_stored : forall (t : tstate) (q : getter), In t small_tables -> In q small_getters -> C08_holds_as_stored t q.
+Proof. exact small_scope_as_stored. Qed.
+Print Assumptions C08_small_scope_as_stored.
+(* ... and the documented reading for every getter except get_cells(area) *)
+Theorem C08_small_scope : forall (t : tstate) (q : getter), In t small_tables -> In q small_getters -> is_area_get_cells q = false -> C08_holds t q.
 Proof. exact small_scope. Qed.
 Print Assumptions C08_small_scope.
+(* ... and the candidate repair of F30 (notes/F30-candidate-...diff, not applied) would meet the documented reading everywhere *)
+Theorem C08_small_scope_candidate_repair : forall (t : tstate) (q : getter), In t small_tables -> In q small_getters -> C08_holds_padded t q.
+Proof. exact small_scope_padded. Qed.
+Print Assumptions C08_small_scope_candidate_repair.
 Example small_scope_bounds : (length small_tables, length small_getters) = (396%nat, 2382%nat).
 Proof. exact small_scope_size. Qed.
 
 (* ---- refuted: the PINNED getters ---- *)
 (* F13: traverse / rows / get_rows hand out the LIVE wrapper of an unrepeated row; mutating it changes the table *)
 Theorem C08_traverse_pinned_refuted : exists t f, WF t /\
-  exists h, In h (res_handles (m_get true t (GTraverse None None))) /\ abs_t (mutate h f t) <> abs_t t.
+  exists h, In h (res_handles (m_get true false t (GTraverse None None))) /\ abs_t (mutate h f t) <> abs_t t.
 Proof. exact traverse_pinned_refuted_w. Qed.
 Print Assumptions C08_traverse_pinned_refuted.
-(* F30: get_cells(area) is short on rows narrower than the table *)
+(* F30 (KNOWN FINDING, the code as it is): get_cells(area) is short on rows stored narrower than the area — the docstring's "exact
+   number of cells of the area" is refuted; the as-stored reading and the candidate repair hold on the same input *)
 Theorem C08_get_cells_pinned_refuted : exists t q, WF t /\ fits t = true /\
-  meets (promises_copy q) (expands q) (m_get true t q) (spec_get (abs_t t) q) = false.
+  meets (promises_copy q) (expands q) (m_get false false t q) (spec_get true (abs_t t) q) = false /\
+  meets (promises_copy q) (expands q) (m_get false false t q) (spec_get false (abs_t t) q) = true /\
+  meets (promises_copy q) (expands q) (m_get false true t q) (spec_get true (abs_t t) q) = true.
 Proof. exact get_cells_pinned_refuted_w. Qed.
 Print Assumptions C08_get_cells_pinned_refuted.
 (* F32: get_column_cells keeps number-columns-repeated on the cells *)
-Theorem C08_get_column_cells_pinned_refuted : exists t q, WF t /\ expands q = true /\ exists n, In n (res_reps (m_get true t q)) /\ n <> 1%nat.
+Theorem C08_get_column_cells_pinned_refuted : exists t q, WF t /\ expands q = true /\ exists n, In n (res_reps (m_get true false t q)) /\ n <> 1%nat.
 Proof. exact get_column_cells_pinned_refuted_w. Qed.
 Print Assumptions C08_get_column_cells_pinned_refuted.
 (* F110: traverse_columns(start, end) / get_columns(range) starting on the last position of a repeated run keeps its repeat *)
-Theorem C08_traverse_columns_pinned_refuted : exists t q, WF t /\ expands q = true /\ exists n, In n (res_reps (m_get true t q)) /\ n <> 1%nat.
+Theorem C08_traverse_columns_pinned_refuted : exists t q, WF t /\ expands q = true /\ exists n, In n (res_reps (m_get true false t q)) /\ n <> 1%nat.
 Proof. exact traverse_columns_pinned_refuted_w. Qed.
 Print Assumptions C08_traverse_columns_pinned_refuted.
 
@@ -87,12 +115,17 @@ Print Assumptions C08_traverse_columns_pinned_refuted.
 Definition t_ex : tstate := {| cols := [(3%nat, 0)]; rows := [(2%nat, (0, [(1%nat, (5, 0)); (2%nat, (7, 1))])); (1%nat, (0, [(1%nat, (9, 0))]))] |}.
 Example WF_t_ex : WF t_ex /\ fits t_ex = true.
 Proof. split; [apply Tableproof6.WFb_WF|]; reflexivity. Qed.
+(* row 2 stores one cell: the code as it is returns nothing for it in columns 1..2, the candidate repair two empty cells *)
 Example get_cells_example :
-  m_get false t_ex (GGetCells (Some (1, 1, 5, 2))) =
+  m_get false false t_ex (GGetCells (Some (1, 1, 5, 2))) =
+  GCells [[{| c_x := Some 1; c_y := Some 1; c_rep := 1; c_h := Detached; c_val := (7, 1) |};
+           {| c_x := Some 2; c_y := Some 1; c_rep := 1; c_h := Detached; c_val := (7, 1) |}];
+          []] /\
+  m_get false true t_ex (GGetCells (Some (1, 1, 5, 2))) =
   GCells [[{| c_x := Some 1; c_y := Some 1; c_rep := 1; c_h := Detached; c_val := (7, 1) |};
            {| c_x := Some 2; c_y := Some 1; c_rep := 1; c_h := Detached; c_val := (7, 1) |}];
           [{| c_x := Some 1; c_y := Some 2; c_rep := 1; c_h := Detached; c_val := empty_cell |};
            {| c_x := Some 2; c_y := Some 2; c_rep := 1; c_h := Detached; c_val := empty_cell |}]].
-Proof. reflexivity. Qed.
+Proof. split; reflexivity. Qed.
 Example live_by_request : c_h (m_get_cell 2 0 false true t_ex) = LiveCell 0 1 /\ c_rep (m_get_cell 2 0 false true t_ex) = 2%nat.
 Proof. split; reflexivity. Qed.
